@@ -29,6 +29,9 @@ EXPLANATION += (
 EXPLANATION += (
     ' C19.1 also: a first blockshape component of 1 is accepted only through the 2D entry (the disjunct is conjoined with a flag that only define_blockshape_2d sets). C19.6: every accepted layout reads back through canonical addresses, decodes and crops (rules of C02 over all layout modes, non-square ones included).'
 )
+EXPLANATION += (
+    ' C19.9 - the guards (assert / raising tests) that hold at every return of the resolver are evaluated abstractly (own evaluator over the syntax tree; rate grid 2^-8..32; 2D switch on and off): every rate below the codec minimum of 9 bits per 4^d float32 block falsifies one of them (such a rate makes zfpy overrun its buffer), and no rate at or above the minimum does.'
+)
 ASSUMPTIONS = ['assert statements are active (python is not run with -O)',
                'the accepted settings then read back faithfully to the extent C01-C03 decide']
 NOT_DECIDED = ('The completeness half ("every valid combination is accepted") beyond the fact that the checks of C19.1 are '
@@ -230,6 +233,7 @@ def run(ctx):
     ctx.floors = [(('C19.7' if r == 'C01.6' else r), n_, w) for (r, n_, w) in getattr(ctx, 'floors', [])]
     ctx.rule_docs.pop('C01.6', None)
     integral_byte_counts(ctx, 'C19.8')
+    codec_floor(ctx, 'C19.9')
     entry, cores = resolver(P, G)
     for f in cores:
         fm = FactMap(f.node)
@@ -490,3 +494,188 @@ def before_open(ctx, rule, entry):
                          'are resolved: a rejected setting leaves an empty output behind', line=c.lineno)
     if n < 2:
         raise AnalysisError('expected two converter run() methods opening an output, found %d' % n)
+
+
+# ---------------------------------------------------------------------------
+# C19.9  rates the codec cannot produce are rejected
+# ---------------------------------------------------------------------------
+
+class _Unknown(Exception):
+    pass
+
+
+def _guard_value(e, env):
+    """value of a pure guard expression over the rate, the 2D flag and constants (abstract evaluation of the syntax
+    tree over a finite grid of rates; anything else is _Unknown)"""
+    from fractions import Fraction
+    if isinstance(e, ast.Constant):
+        if isinstance(e.value, bool) or e.value is None:
+            return e.value
+        if isinstance(e.value, int):
+            return Fraction(e.value)
+        if isinstance(e.value, float):
+            return Fraction(e.value)
+        raise _Unknown()
+    if isinstance(e, ast.Name):
+        if e.id in env:
+            return env[e.id]
+        raise _Unknown()
+    if isinstance(e, ast.UnaryOp):
+        v = _guard_value(e.operand, env)
+        if isinstance(e.op, ast.Not):
+            return not v
+        if isinstance(e.op, ast.USub):
+            return -v
+        raise _Unknown()
+    if isinstance(e, ast.BinOp):
+        a, b = _guard_value(e.left, env), _guard_value(e.right, env)
+        if isinstance(a, bool) or isinstance(b, bool) or a is None or b is None:
+            raise _Unknown()
+        if isinstance(e.op, ast.Add):
+            return a + b
+        if isinstance(e.op, ast.Sub):
+            return a - b
+        if isinstance(e.op, ast.Mult):
+            return a * b
+        if isinstance(e.op, ast.Div) and b != 0:
+            return a / b
+        if isinstance(e.op, ast.FloorDiv) and b != 0:
+            return Fraction(a // b)
+        if isinstance(e.op, ast.Pow) and b.denominator == 1 and abs(b) <= 16:
+            return a ** int(b)
+        if isinstance(e.op, ast.LShift) and a.denominator == 1 and b.denominator == 1 and 0 <= b <= 32:
+            return Fraction(int(a) << int(b))
+        raise _Unknown()
+    if isinstance(e, ast.IfExp):
+        return _guard_value(e.body if _guard_value(e.test, env) else e.orelse, env)
+    if isinstance(e, ast.BoolOp):
+        if isinstance(e.op, ast.And):
+            for v in e.values:
+                if not _guard_value(v, env):
+                    return False
+            return True
+        for v in e.values:
+            if _guard_value(v, env):
+                return True
+        return False
+    if isinstance(e, ast.Compare):
+        l = _guard_value(e.left, env)
+        for op, c in zip(e.ops, e.comparators):
+            if isinstance(op, (ast.In, ast.NotIn)) and isinstance(c, (ast.Tuple, ast.List, ast.Set)):
+                vals = [_guard_value(x, env) for x in c.elts]
+                ok = l in vals
+                ok = ok if isinstance(op, ast.In) else not ok
+                r = l
+            else:
+                r = _guard_value(c, env)
+                if isinstance(op, ast.Eq):
+                    ok = l == r
+                elif isinstance(op, ast.NotEq):
+                    ok = l != r
+                elif isinstance(op, ast.Lt):
+                    ok = l < r
+                elif isinstance(op, ast.LtE):
+                    ok = l <= r
+                elif isinstance(op, ast.Gt):
+                    ok = l > r
+                elif isinstance(op, ast.GtE):
+                    ok = l >= r
+                else:
+                    raise _Unknown()
+            if not ok:
+                return False
+            l = r
+        return True
+    if isinstance(e, ast.Call) and isinstance(e.func, ast.Name) and e.func.id in ('float', 'min', 'max', 'abs') and not e.keywords:
+        vs = [_guard_value(a, env) for a in e.args]
+        if e.func.id == 'float' and len(vs) == 1:
+            return vs[0]
+        if e.func.id == 'abs' and len(vs) == 1:
+            return abs(vs[0])
+        if e.func.id in ('min', 'max') and vs:
+            return min(vs) if e.func.id == 'min' else max(vs)
+    raise _Unknown()
+
+
+def codec_floor(ctx, rule):
+    """ZFP spends at least 9 bits (sign + 8 exponent bits of float32) on every block of 4^d values: a fixed rate below
+    9/16 bit per sample (2D) or 9/64 (3D) does not exist, the stream the codec returns is longer than rate*samples/8 and
+    the library's own buffer is overrun (the conversion dies inside zfpy, or worse).  Such a rate must be rejected by the
+    resolver, on every path, in the mode (2D / 3D) it is called in; a rate the codec supports must not be."""
+    from fractions import Fraction
+    P, G = ctx.P, ctx.G
+    ctx.rule(rule, 'the resolver rejects every rate below the codec minimum of 9 bits per 4^d block, per dimensionality, and no supported one')
+    entry, cores = resolver(P, G)
+    n = 0
+    for f in cores:
+        flags = [p for p in f.params if isinstance(f.defaults.get(p), ast.Constant) and f.defaults[p].value is False]
+        if len(flags) != 1:
+            raise AnalysisError('%s: expected exactly one 2D switch parameter defaulting to False, found %r' % (f.qualname, flags))
+        flag = flags[0]
+        rate_name = 'bits_per_voxel'
+        consts = {}
+        for nm in {x.id for x in ast.walk(f.node) if isinstance(x, ast.Name)}:
+            v = P.const_value(f.module, nm)
+            if isinstance(v, int) and not isinstance(v, bool):
+                consts[nm] = Fraction(v)
+        for is2d in (True, False):
+            d = 2 if is2d else 3
+            fm = FactMap(f.node, assume=[('T', flag)] if is2d else [('F', flag)])
+            rets = [(k, s, facts) for (k, s, facts) in fm.exits if k == 'return']
+            if not rets:
+                raise AnalysisError('%s has no return in %dD mode' % (f.qualname, d))
+            grid = [Fraction(1, 2 ** k) for k in range(1, 9)] + [Fraction(2 ** k) for k in range(0, 6)]
+            for (k, s, facts) in rets:
+                guards, opaque = [], []
+                for a in facts:
+                    if a[0] in ('==', '!=', '<', '<=', '>', '>='):
+                        txt = '(%s) %s (%s)' % (a[1], a[0], a[2])
+                    elif a[0] == 'T':
+                        txt = str(a[1])
+                    elif a[0] == 'F':
+                        txt = 'not (%s)' % a[1]
+                    else:
+                        continue
+                    if rate_name not in txt and 'blockshape' not in txt:
+                        continue
+                    try:
+                        e = ast.parse(txt, mode='eval').body
+                    except SyntaxError:
+                        continue
+                    try:
+                        _guard_value(e, dict(consts, **{rate_name: Fraction(1), flag: is2d}))
+                        guards.append((txt, e))
+                    except _Unknown:
+                        # an upper bound on the block volume bounds the rate from below through the product equality
+                        small = a[1] if a[0] in ('<', '<=') else (a[2] if a[0] in ('>', '>=') else None)
+                        if small is not None and 'blockshape' in str(small):
+                            try:
+                                se = ast.parse(str(small), mode='eval').body
+                            except SyntaxError:
+                                se = None
+                            if se is not None and not any(isinstance(x, (ast.Call, ast.GeneratorExp, ast.ListComp))
+                                                          for x in ast.walk(se)):
+                                opaque.append(txt)
+                for r in grid:
+                    n += 1
+                    env = dict(consts, **{rate_name: r, flag: is2d})
+                    rejecting = [txt for txt, e in guards if not _guard_value(e, env)]
+                    feasible = r * 4 ** d >= 9
+                    label = '%dD, rate %s, return at line %d' % (d, r, s.lineno)
+                    if not feasible and not rejecting:
+                        if opaque:
+                            raise AnalysisError('%s: cannot decide whether `%s` rejects the rate %s in %dD' % (
+                                f.qualname, opaque[0][:80], r, d))
+                        ctx.fail(rule, f, s, 'the resolver returns the rate %s for a %dD conversion: ZFP cannot encode a block '
+                                 'of %d float32 values in %s bits (minimum 9), the compressed stream is longer than the '
+                                 'rate says and zfpy overruns its buffer - the setting is neither rejected nor does it '
+                                 'yield a file' % (r, d, 4 ** d, r * 4 ** d), key_extra='floor|%dD' % d)
+                        break
+                    elif feasible and rejecting:
+                        ctx.fail(rule, f, s, 'the resolver rejects the rate %s for a %dD conversion (%s), which the codec '
+                                 'supports (%s bits per block)' % (r, d, rejecting[0][:80], r * 4 ** d), key_extra='over|%dD' % d)
+                        break
+                    else:
+                        ctx.ok(rule, f, label, 'rate %s in %dD: %s' % (r, d, 'rejected by `%s`' % rejecting[0][:60] if rejecting
+                                                                       else 'accepted (>= 9 bits per block)'))
+    ctx.floor(rule, 20, '(mode, rate, return) triples')
